@@ -74,6 +74,9 @@ types.append(record("Beta", [field("p1", prim("string")), field("p2", prim("stri
 types.append(record("Base3", [field("bd", prim("int32"), default="5"), field("bs", arr(prim("string")), default=json.dumps(["x"]))]))
 types.append(record("Mid3", [field("m", prim("string"), True)], includes=["Base3"]))
 types.append(record("Top3", [field("own", prim("string"), default=json.dumps("o"))], includes=["Mid3"]))
+# record-typed fields whose default literal is an (empty / non-empty) object: the nested record's own defaults apply
+types.append(record("Hold3", [field("hb", ref("Base3"), default="{}"), field("hs", ref("Base3"), default="{ }"),
+                              field("hi", ref("Inner"), default=json.dumps({"s": "x"}))]))
 types.append(record("Plain3", [field("p", prim("string"), True)], includes=["Mid3"]))
 # a record with more required fields than a machine word has bits
 types.append(record("Wide", [field("f%02d" % i, prim("string")) for i in range(66)]))
